@@ -29,7 +29,8 @@ def run (toks : List String) (seps : List Nat) (b : Block) : List Diag := (nBloc
 namespace Doc
 mutual
 /-- evaluating the expression performs a function call (function *bodies* are not evaluated).
-    `idx = true` is the documented notion; `idx = false` does not look inside bracket indices. -/
+    `idx = true` is the documented notion; `idx = false` (what the code did before 7d0e4db) does not look inside
+    bracket indices. -/
 def calls (idx : Bool) : Expr → Bool
   | .bin _ l _ r => calls idx l || calls idx r
   | .paren _ e => calls idx e
